@@ -445,6 +445,15 @@ pub fn all_code_packets_v5() -> Vec<v5::Packet> {
 // GEN direction: packets enumerated by TLC from the bounded domain of MC_Wire (one JSON vector per line:
 // {"fam","packet","bytes"}) are built as real packet values and pushed through the real code
 fn vector_events<F: Fam>(out: &mut Out, rng: &mut Rng, j: &J, mode: &str, profile: &str) {
+    if mode == "poll" {
+        // vectors of MC_Poll carry a stream only
+        if let Ok(b) = as_bytes(&j["bytes"]) {
+            let mut run = RUNS.with(|r| r.get());
+            crate::frontends::model_stream_runs::<F>(out, rng, &mut run, &b);
+            RUNS.with(|r| r.set(run));
+        }
+        return;
+    }
     match F::from_json(&j["packet"]) {
         Err(m) => out.ev(json!({"ev": "Unconstructible", "fam": F::NAME, "packet": j["packet"].clone(), "why": m})),
         Ok(p) => match mode {
@@ -462,6 +471,10 @@ fn vector_events<F: Fam>(out: &mut Out, rng: &mut Rng, j: &J, mode: &str, profil
             _ => {}
         },
     }
+}
+
+thread_local! {
+    static RUNS: std::cell::Cell<u64> = const { std::cell::Cell::new(5_000_000) };
 }
 
 pub fn record_vectors(out: &mut Out, input: &str, mode: &str, seed: u64) {
